@@ -48,7 +48,7 @@ CHECKS = {
         category="exploration",
         technique="runtime monitoring: per-method result grammar + acceptance follow-ups (crypt_checksalt, crypt, crypt_gensalt prefix) on every success",
         text="Every successful result of the workload matched its method's structural grammar, character set, length and tag and "
-             "was accepted as a setting and as a gensalt prefix of the same family; per-position digest alphabet coverage reported.",
+             "was accepted as a setting and as a gensalt prefix of the same family; per-position digest alphabet coverage reported; the widest documented cost spellings (10^8..10^9 rounds) were hashed and kept their shape.",
         note="Shape violations needing a digest value not sampled are invisible (coverage table shows what was seen).",
         design="§4 C06"),
     "C07": dict(
@@ -77,14 +77,14 @@ CHECKS = {
         category="exploration",
         technique="runtime monitoring: crypt_gensalt through all three entry points, result fed to crypt_checksalt and crypt on an ASan build",
         text="Every generated setting was safe ASCII < 192 bytes with the selected tag, identical across the entry points, not INVALID, "
-             "and (when affordable) hashed successfully with the setting as a literal prefix; nrbytes 0..64 (0..256 thorough) enumerated.",
+             "and (when affordable) hashed successfully with the setting as a literal prefix; nrbytes 0..64 (0..256 thorough) enumerated; every call repeated with other stale errno values gave the same outcome.",
         note="Settings above the cost budget are checked structurally only.",
         design="§4 C10"),
     "C11": dict(
         category="exploration",
         technique="runtime monitoring: independent cost-field decoder + documented count->cost function + reference model at the decoded cost",
         text="For every executed (prefix, count) the acceptance matched the documented range and the decoded cost equalled the documented "
-             "function; affordable costs were tied to the work crypt does via the reference models. Known finding F4 (sunmd5 wrap) reported.",
+             "function; affordable costs were tied to the work crypt does via the reference models; outcomes did not depend on errno at entry. Known finding F4 (sunmd5 wrap) reported.",
         note="yescrypt/scrypt applied cost is judged by C02; only sampled 64-bit counts beyond the enumerated small ranges.",
         design="§4 C11"),
     "C12": dict(
@@ -111,13 +111,13 @@ CHECKS = {
     "C15": dict(
         category="fault_enumeration",
         technique="fault injection at the interposed allocator/mapping layer: every single and double failure position of each corpus call, static entry points also as the first call of a fresh process",
-        text="All single and double faults of the malloc/realloc/mmap/munmap request sequence of every corpus call were injected: clean "
+        text="All single and double faults (triples sampled in thorough) of the malloc/calloc/realloc/mmap/munmap request sequence of every corpus call were injected: clean "
              "failure, documented errno, no leak, scratch erased, next call normal.",
         note="Faults inside libc and kernel OOM are out of scope; corpus, not all inputs.",
         design="§4 C15"),
     "C16": dict(
         category="exploration",
-        technique="runtime monitoring: in-process differential execution of the digest/HMAC/KDF primitives against libgcrypt under ASan+UBSan",
+        technique="runtime monitoring: in-process differential execution of the digest/HMAC/KDF primitives against libgcrypt under ASan+UBSan and on a -DNDEBUG build",
         text="Every length up to the bound x every two-way split, random multi-way splits, key lengths 0..200 and the PBKDF2 grid agreed with "
              "libgcrypt at all buffer offsets; contexts zero after Final.",
         note="libgcrypt is the reference; the two-way-split grid is exhaustive up to 1100 bytes in the thorough tier.",
@@ -126,7 +126,7 @@ CHECKS = {
         category="exploration",
         technique="runtime monitoring: obsolete DES API bound by dlvsym from the fresh shared library and internal DES core, both against nettle DES / a bit-level salted model",
         text="All weight-1/63 key x block pairs and the random pairs agreed with DES, decrypt inverted encrypt, parity and junk bits were "
-             "ignored, static and re-entrant variants agreed, crypt calls did not disturb the static key, a key set on one thread was used by encrypt on another; salted/iterated core matched the model.",
+             "ignored, static and re-entrant variants agreed, crypt calls did not disturb the static key, a key set on one thread was used by encrypt on another, re-keying after the object was reused worked, concurrent first use from four threads in fresh processes was exact; salted/iterated core matched the model.",
         note="Sampling of the 2^56 x 2^64 space.",
         design="§4 C17"),
     "C18": dict(
@@ -148,7 +148,7 @@ CHECKS = {
         category="other",
         technique="runtime monitoring: differential execution of a released-ABI client (compat symbol versions, glibc-size crypt_data with canary) against the fresh shared library + layout and symbol-version probes",
         text="struct layout and constants equal the released header's and the stated values; every (symbol, version) the released libcrypt.so.1 "
-             "defines is defined, also in builds for each --enable-obsolete-api flavour (glibc, alt, owl, suse); the old client's transcript (including setkey;crypt;encrypt histories) is identical with the fresh library and compat symbols equal their modern counterparts.",
+             "defines is defined, also in builds for each --enable-obsolete-api flavour (glibc, alt, owl, suse); configure's symbol-version floor for 35 host platforms and its keep/drop decision for the compatibility ABI are as released; the old client's transcript (including setkey;crypt;encrypt histories) is identical with the fresh library and compat symbols equal their modern counterparts.",
         note="x86-64 glibc only; glibc-era binaries are emulated via .symver, not available.",
         design="§4 C20"),
 }
